@@ -272,14 +272,22 @@ class Evaluator:
                 st.assume(z3.ForAll([q1], z3.Implies(z3.And(q1 >= 0, q1 < ca.length), on[q1] == oa[q1])))
             if ob is not None:
                 st.assume(z3.ForAll([q2], z3.Implies(z3.And(q2 >= ca.length, q2 < ca.length + cb.length), on[q2] == ob[q2 - ca.length])))
+        srcs = getattr(st.heap, 'origin_src', {})
+        sa, sb = srcs.get(a.ref), srcs.get(b.ref)
+        if on is not None and oa is not None and ob is not None and sa != sb:
+            on = None           # selections of two different lists: positions have no common source
+        src_ref = sa if oa is not None else sb
         if into is not None:
             st.heap.lists[into.ref] = st.heap.lists[res.ref]
             st.heap.origins.pop(into.ref, None)
+            srcs.pop(into.ref, None)
             if on is not None:
                 st.heap.origins[into.ref] = on
+                srcs[into.ref] = src_ref
             return into
         if on is not None:
             st.heap.origins[res.ref] = on
+            srcs[res.ref] = src_ref
         return res
 
     def list_slice(self, lv, sl, st, node):
@@ -927,6 +935,9 @@ class Evaluator:
         rc = st.heap.lists[res.ref]
         O = z3.Array(fresh_name('origin'), z3.IntSort(), z3.IntSort())
         st.heap.origins[res.ref] = O
+        st.heap.origin_src = getattr(st.heap, 'origin_src', {})
+        if isinstance(src, VList):
+            st.heap.origin_src[res.ref] = src.ref
         sel = lambda t_: O[t_]
         inv = z3.Function(fresh_name('inv'), z3.IntSort(), z3.IntSort())
         j, j2 = z3.Int(fresh_name('cj')), z3.Int(fresh_name('cj'))
